@@ -49,7 +49,7 @@ struct Lin {
         return std::string("linear<") + layer_name[L] + ",N=" + std::to_string(N) + ",M=" + std::to_string(M) + ",coord=" + vh::tn<R>() + ",store=" + vh::tn<S>() + ">";
     }
 
-    static field_t make(const covfie::utility::nd_size<N> & ext)
+    static field_t make(const covfie::utility::nd_size<N> & ext, const uint64_t * bmin, const uint64_t * bmax)
     {
         std::size_t len = 1;
         if constexpr (L == MORTON) {
@@ -64,8 +64,8 @@ struct Lin {
         if constexpr (L == CLAMP_STRIDED) {
             typename below_t::configuration_t box;
             for (std::size_t k = 0; k < N; ++k) {
-                box.min[k] = 0;
-                box.max[k] = ext[k] - 1;
+                box.min[k] = bmin[k];
+                box.max[k] = bmax[k];
             }
             return field_t(covfie::make_parameter_pack(std::monostate{}, std::move(box), typename order_t::configuration_t(ext), covfie::utility::nd_size<1>{len}));
         } else {
@@ -99,7 +99,17 @@ struct Lin {
             static const double flatv[] = {5.0, 0.1, -7.3, 1.0 / 3.0, 1000.1, -2.7e-3, 3.0, 0.7};
             const unsigned flat0 = (unsigned)rng.below(8);
             vh::set_case("%s field#%u extents=%s fill", nm.c_str(), fi, vh::jarr(ext, N).c_str());
-            field_t f = make(ext);
+            // the box of the clamp layer beneath the interpolator: the whole grid, or (every second field) a sub-box of it
+            uint64_t bmin[N], bmax[N];
+            for (std::size_t k = 0; k < N; ++k) {
+                bmin[k] = 0;
+                bmax[k] = ext[k] - 1;
+                if (L == CLAMP_STRIDED && (fi & 1)) {
+                    bmin[k] = rng.below(ext[k]);
+                    bmax[k] = bmin[k] + rng.below(ext[k] - bmin[k]);
+                }
+            }
+            field_t f = make(ext, bmin, bmax);
             typename order_t::non_owning_data_t raw(order_of(f));
             // fill every lattice cell through the storage-order layer's own view
             uint64_t ncells = 1;
@@ -193,7 +203,7 @@ struct Lin {
                         icoord_t cc;
                         for (std::size_t k = 0; k < N; ++k) {
                             uint64_t i = base[k] + ((bits >> k) & 1);
-                            if (L == CLAMP_STRIDED && i > ext[k] - 1) i = ext[k] - 1;
+                            if (L == CLAMP_STRIDED) i = i < bmin[k] ? bmin[k] : (i > bmax[k] ? bmax[k] : i);
                             cc[k] = i;
                         }
                         return (Q)raw.at(cc)[j];
@@ -206,7 +216,7 @@ struct Lin {
                     if (lattice) {
                         // exact: the stored value converted to the coordinate type, then to the output type
                         icoord_t cc;
-                        for (std::size_t k = 0; k < N; ++k) cc[k] = base[k] > ext[k] - 1 ? ext[k] - 1 : base[k];
+                        for (std::size_t k = 0; k < N; ++k) cc[k] = base[k] < bmin[k] ? bmin[k] : (base[k] > bmax[k] ? bmax[k] : base[k]);
                         S want = (S)(R)raw.at(cc)[j];
                         if (!(got[j] == want)) why = "lattice point: got " + iref::qs(g) + " stored " + iref::qs((Q)want);
                     }
